@@ -1,11 +1,295 @@
 (* Wire-level wrappers of property C14: decode arguments from sx, run the model, encode.
-   Dispatch.v routes a block of unit numbers here; [k] is the offset inside the block. *)
+   Dispatch.v routes a block of unit numbers here; [k] is the offset inside the block.
+
+   value   : (0) None | (1 z) int | (2 c) candidate | (3 c..) Tie | (4 v..) list | (5 (key v)..) dict
+   tree    : (0 l kind) leaf | (1 c e) PreConverted | (2 e c) PostConverted | (3 e n) FixedSeatCount
+             | (4 el e d) Conditioned | (5 e a) ByConstituency | (6 e ae) ByConstituency(distributor apportioner)
+             | (7 e a) PreApportioned | (8 e ae) | (9 e) RemovedApportionment | (10 ov al) ByParty | (11 ov)
+             | (12 (e..) d) MultistageDistributor | (13 m b) TieBreaking | (14 p) PartyListEvaluator closed
+             | (15 p le c?) open ;  a = (0) | (1 n) | (2 dict-value)
+   kwrec   : six options  () | (v)   in the order n_seats prev_gains max_seats party_lists list_votes candidate_list
+   oracle  : leaf table ((l votes (opt..) result)..), converter table ((c value result)..);
+             result = (0 v) | (1 code)
+   answers : (0 v) | (1 code) | (4 id votes (opt..)) = the oracle has no entry for this call *)
 From Coq Require Import ZArith QArith List Bool.
-From VL Require Import Prelude.Sx.
+From VL Require Import Prelude.Sx Model.Wrappers.
 Import ListNotations.
 Open Scope Z_scope.
 
+Definition dec_key (s : sx) : option key :=
+  match s with
+  | L [A 2; A (Zpos c)] => Some (KC c)
+  | L (A 3 :: cs) => match opt_map as_pos cs with Some t => Some (KT t) | None => None end
+  | _ => None
+  end.
+
+Fixpoint dec_val (s : sx) : option val :=
+  match s with
+  | L [A 0] => Some VNone
+  | L [A 1; A z] => Some (VInt z)
+  | L [A 2; A (Zpos c)] => Some (VKey (KC c))
+  | L (A 3 :: cs) => match opt_map as_pos cs with Some t => Some (VKey (KT t)) | None => None end
+  | L (A 4 :: vs) =>
+      match (fix go (l : list sx) : option (list val) :=
+               match l with
+               | [] => Some []
+               | x :: r => match dec_val x, go r with Some v, Some vs' => Some (v :: vs') | _, _ => None end
+               end) vs with
+      | Some l => Some (VList l) | None => None end
+  | L (A 5 :: kvs) =>
+      match (fix go (l : list sx) : option (list (key * val)) :=
+               match l with
+               | [] => Some []
+               | L [k; x] :: r => match dec_key k, dec_val x, go r with
+                                  | Some k', Some v, Some r' => Some ((k', v) :: r') | _, _, _ => None end
+               | _ => None
+               end) kvs with
+      | Some d => Some (VDict d) | None => None end
+  | _ => None
+  end.
+
+Definition enc_key (k : key) : sx :=
+  match k with KC c => L [A 2; A (Zpos c)] | KT t => L (A 3 :: map (fun c => A (Zpos c)) t) end.
+Fixpoint enc_val (v : val) : sx :=
+  match v with
+  | VNone => L [A 0]
+  | VInt z => L [A 1; A z]
+  | VKey k => enc_key k
+  | VList l => L (A 4 :: map enc_val l)
+  | VDict d => L (A 5 :: map (fun kv => L [enc_key (fst kv); enc_val (snd kv)]) d)
+  end.
+
+Fixpoint val_eqb (a b : val) : bool :=
+  match a, b with
+  | VNone, VNone => true
+  | VInt x, VInt y => x =? y
+  | VKey x, VKey y => key_eqb x y
+  | VList x, VList y =>
+      (fix go (x y : list val) : bool :=
+         match x, y with
+         | [], [] => true
+         | p :: x', q :: y' => val_eqb p q && go x' y'
+         | _, _ => false
+         end) x y
+  | VDict x, VDict y =>
+      (fix go (x y : list (key * val)) : bool :=
+         match x, y with
+         | [], [] => true
+         | (k, p) :: x', (k', q) :: y' => key_eqb k k' && val_eqb p q && go x' y'
+         | _, _ => false
+         end) x y
+  | _, _ => false
+  end.
+
+Definition dec_opt (s : sx) : option (option val) :=
+  match s with
+  | L [] => Some None
+  | L [x] => match dec_val x with Some v => Some (Some v) | None => None end
+  | _ => None
+  end.
+Definition enc_opt (o : option val) : sx := match o with None => L [] | Some v => L [enc_val v] end.
+Definition dec_kwrec (s : sx) : option kwrec :=
+  match as_listof dec_opt s with
+  | Some [a; b; c; d; e; f] => Some (KW a b c d e f)
+  | _ => None
+  end.
+
+Definition dec_lkind (z : Z) : option lkind :=
+  match z with
+  | 0 => Some LSel | 1 => Some LSelD | 2 => Some LDist | 3 => Some LThr | 4 => Some LThrP
+  | 5 => Some LThrPR | 6 => Some LSDist | 7 => Some LOpen | _ => None
+  end.
+Definition dec_aspec (s : sx) : option aspec :=
+  match s with
+  | L [A 0] => Some ANone
+  | L [A 1; A n] => Some (AInt n)
+  | L [A 2; d] => match dec_val d with Some (VDict dd) => Some (ADict dd) | _ => None end
+  | _ => None
+  end.
+
+Fixpoint dec_ev (s : sx) : option ev :=
+  match s with
+  | L [A 0; A (Zpos l); A k] => match dec_lkind k with Some lk => Some (Leaf l lk) | None => None end
+  | L [A 1; A (Zpos c); e] => match dec_ev e with Some e' => Some (PreConv c e') | None => None end
+  | L [A 2; e; A (Zpos c)] => match dec_ev e with Some e' => Some (PostConv e' c) | None => None end
+  | L [A 3; e; n] => match dec_ev e, dec_val n with Some e', Some n' => Some (Fixed e' n') | _, _ => None end
+  | L [A 4; el; e; d] => match dec_ev el, dec_ev e, as_nat d with
+                         | Some el', Some e', Some d' => Some (Cond el' e' d') | _, _, _ => None end
+  | L [A 5; e; a] => match dec_ev e, dec_aspec a with Some e', Some a' => Some (ByCons e' a') | _, _ => None end
+  | L [A 6; e; ae] => match dec_ev e, dec_ev ae with Some e', Some a' => Some (ByConsD e' a') | _, _ => None end
+  | L [A 7; e; a] => match dec_ev e, dec_aspec a with Some e', Some a' => Some (PreApp e' a') | _, _ => None end
+  | L [A 8; e; ae] => match dec_ev e, dec_ev ae with Some e', Some a' => Some (PreAppD e' a') | _, _ => None end
+  | L [A 9; e] => match dec_ev e with Some e' => Some (RemApp e') | None => None end
+  | L [A 10; ov; al] => match dec_ev ov, dec_ev al with Some o, Some a' => Some (ByParty o a') | _, _ => None end
+  | L [A 11; ov] => match dec_ev ov with Some o => Some (ByPartyS o) | None => None end
+  | L [A 12; L rs; d] =>
+      match (fix go (l : list sx) : option (list ev) :=
+               match l with
+               | [] => Some []
+               | x :: r => match dec_ev x, go r with Some e, Some es => Some (e :: es) | _, _ => None end
+               end) rs, as_nat d with
+      | Some rs', Some d' => Some (Multi rs' d') | _, _ => None end
+  | L [A 13; m; b] => match dec_ev m, dec_ev b with Some m', Some b' => Some (TieBr m' b') | _, _ => None end
+  | L [A 14; p] => match dec_ev p with Some p' => Some (PListC p') | None => None end
+  | L [A 15; p; le; L []] => match dec_ev p, dec_ev le with Some p', Some l' => Some (PListO p' l' None) | _, _ => None end
+  | L [A 15; p; le; L [A (Zpos c)]] =>
+      match dec_ev p, dec_ev le with Some p', Some l' => Some (PListO p' l' (Some c)) | _, _ => None end
+  | _ => None
+  end.
+
+Definition dec_res (s : sx) : option (res val) :=
+  match s with
+  | L [A 0; v] => match dec_val v with Some v' => Some (Ok v') | None => None end
+  | L [A 1; A c] => Some (Err (Exn c))
+  | _ => None
+  end.
+Definition enc_res (r : res val) : sx :=
+  match r with
+  | Ok v => ok (enc_val v)
+  | Err (Exn c) => err c
+  | Err (Miss l v args) => L [A 4; A (Zpos l); enc_val v; L (map enc_opt args)]
+  end.
+
+Definition leaf_row := (positive * val * list (option val) * res val)%type.
+Definition dec_leaf_row (s : sx) : option leaf_row :=
+  match s with
+  | L [A (Zpos l); v; args; r] =>
+      match dec_val v, as_listof dec_opt args, dec_res r with
+      | Some v', Some a', Some r' => Some (l, v', a', r') | _, _, _ => None end
+  | _ => None
+  end.
+Definition opt_eqb (a b : option val) : bool :=
+  match a, b with None, None => true | Some x, Some y => val_eqb x y | _, _ => false end.
+Fixpoint opts_eqb (a b : list (option val)) : bool :=
+  match a, b with
+  | [], [] => true
+  | x :: a', y :: b' => opt_eqb x y && opts_eqb a' b'
+  | _, _ => false
+  end.
+Fixpoint leaf_lookup (tbl : list leaf_row) (l : positive) (v : val) (args : list (option val)) : res val :=
+  match tbl with
+  | [] => Err (Miss l v args)
+  | (l', v', a', r) :: t =>
+      if Pos.eqb l l' && val_eqb v v' && opts_eqb args a' then r else leaf_lookup t l v args
+  end.
+Definition conv_lookup (tbl : list leaf_row) (c : positive) (v : val) : res val := leaf_lookup tbl c v [].
+
+Definition dec_pargs (s : sx) : option pargs :=
+  match s with
+  | L [L pos; kw] => match opt_map dec_val pos, dec_kwrec kw with
+                     | Some p, Some k => Some (PA p k) | _, _ => None end
+  | _ => None
+  end.
+
+(* signatures on the wire: (((kw default?)..) varpos ((kw default?)..) varkw) ; kw = 0..5 *)
+Definition enc_kw (k : kw) : sx :=
+  A (match k with KSeats => 0 | KPrev => 1 | KMax => 2 | KPl => 3 | KLv => 4 | KCl => 5 end).
+Definition dec_kw (s : sx) : option kw :=
+  match s with
+  | A 0 => Some KSeats | A 1 => Some KPrev | A 2 => Some KMax | A 3 => Some KPl | A 4 => Some KLv | A 5 => Some KCl
+  | _ => None
+  end.
+Definition enc_sig (s : sigt) : sx :=
+  let ps := fun l => L (map (fun p : kw * option val => L [enc_kw (fst p); enc_opt (snd p)]) l) in
+  L [ps (sg_pos s); of_bool (sg_varpos s); ps (sg_kwonly s); of_bool (sg_varkw s)].
+Definition dec_param (s : sx) : option (kw * option val) :=
+  match s with
+  | L [k; d] => match dec_kw k, dec_opt d with Some k', Some d' => Some (k', d') | _, _ => None end
+  | _ => None
+  end.
+Definition dec_sig (s : sx) : option sigt :=
+  match s with
+  | L [ps; vp; ks; vk] =>
+      match as_listof dec_param ps, as_bool vp, as_listof dec_param ks, as_bool vk with
+      | Some a, Some b, Some c, Some d => Some (SG a b c d) | _, _, _, _ => None end
+  | _ => None
+  end.
+Definition enc_kwrec (r : kwrec) : sx := L (map (fun k => enc_opt (kget r k)) all_kw).
+
+(* every subtree, preorder: (accepts_seats accepts_prev_gains signature) *)
+Fixpoint node_info (t : ev) : list sx :=
+  let me := L [of_bool (acc_seats t); of_bool (acc_prev t); enc_sig (sig_of t)] in
+  me :: match t with
+        | Leaf _ _ => []
+        | PreConv _ e | PostConv e _ | Fixed e _ | RemApp e | PreApp e _ | ByCons e _ | ByPartyS e | PListC e => node_info e
+        | Cond a b _ | ByConsD a b | PreAppD a b | ByParty a b | TieBr a b | PListO a b _ => node_info a ++ node_info b
+        | Multi rs _ => flat_map node_info rs
+        end.
+
 Definition u_c14 (k : Z) (a : sx) : sx :=
   match k with
+  | 0 | 1 =>
+      (* (tree votes call leaf-table converter-table) -> run_impl (k=0) ; call = kwrec for run_spec (k=1) *)
+      match a with
+      | L [t; v; c; lt; ct] =>
+          match dec_ev t, dec_val v, as_listof dec_leaf_row lt, as_listof dec_leaf_row ct with
+          | Some t', Some v', Some lt', Some ct' =>
+              if k =? 0 then
+                match dec_pargs c with
+                | Some pa => enc_res (run_impl (leaf_lookup lt') (conv_lookup ct') t' v' pa)
+                | None => bad_input
+                end
+              else
+                match dec_kwrec c with
+                | Some sa => enc_res (run_spec (leaf_lookup lt') (conv_lookup ct') t' v' sa)
+                | None => bad_input
+                end
+          | _, _, _, _ => bad_input
+          end
+      | _ => bad_input
+      end
+  | 2 =>
+      (* (tree kwrec) -> (wt faithful fits (node-info..)) *)
+      match a with
+      | L [t; sa] =>
+          match dec_ev t, dec_kwrec sa with
+          | Some t', Some sa' => ok (L [of_bool (wt t'); of_bool (faithful t'); of_bool (fits t' sa'); L (node_info t')])
+          | _, _ => bad_input
+          end
+      | _ => bad_input
+      end
+  | 3 =>
+      (* (signature call) -> bound arguments: (named-kwrec (extra positional..) extra-kwrec) *)
+      match a with
+      | L [s; c] =>
+          match dec_sig s, dec_pargs c with
+          | Some s', Some pa =>
+              match bind s' pa with
+              | Ok b => ok (L [enc_kwrec (b_named b); L (map enc_val (b_args b)); enc_kwrec (b_kwargs b)])
+              | Err (Exn c) => err c
+              | Err _ => bad_input
+              end
+          | _, _ => bad_input
+          end
+      | _ => bad_input
+      end
+  | 4 =>
+      (* tie replacement: (0 list tie repl) -> _replace_sel_ties ; (1 dict tie repl) -> _replace_distr_ties *)
+      match a with
+      | L [A 0; l; t; r] =>
+          match dec_val l, dec_key t, dec_val r with
+          | Some (VList l'), Some t', Some (VList r') =>
+              enc_res (replace_sel l' t' r' >>= fun x => Ok (VList x))
+          | _, _, _ => bad_input
+          end
+      | L [A 1; d; t; r] =>
+          match dec_val d, dec_key t, dec_val r with
+          | Some (VDict d'), Some t', Some (VList r') =>
+              enc_res (replace_distr d' t' r' >>= fun x => Ok (VDict x))
+          | _, _, _ => bad_input
+          end
+      | _ => bad_input
+      end
+  | 5 =>
+      (* shared parts: (0 votes) VoteTotals ; (1 votes subset) SubsettedVotes ; (2 d1 d2) add_dict_to_dict *)
+      match a with
+      | L [A 0; v] => match dec_val v with Some v' => enc_res (vote_totals v') | None => bad_input end
+      | L [A 1; v; s] => match dec_val v, dec_val s with
+                         | Some v', Some s' => enc_res (subset_votes v' s') | _, _ => bad_input end
+      | L [A 2; x; y] => match dec_val x, dec_val y with
+                         | Some (VDict x'), Some (VDict y') => enc_res (add_dict x' y' >>= fun r => Ok (VDict r))
+                         | _, _ => bad_input end
+      | _ => bad_input
+      end
   | _ => bad_input
   end.
